@@ -45,7 +45,12 @@ BASES = {"H": HasTraits, "S": HasStrictTraits, "P": HasPrivateTraits}
 # default (only generated where the trait inherited from the first base that has one is Int or Any; dropped otherwise)
 LEVEL_ST = st.tuples(st.dictionaries(st.sampled_from(NAMES), st.sampled_from(KINDS + ["=7", "=7"]), max_size=3),
                      st.dictionaries(st.sampled_from(PREFIXES), st.sampled_from(KINDS), max_size=3)).map(list)
+# undeclared names that are a (possibly declared) name plus ONE trailing underscore: governed by the wildcards / the class
+# default like any other undeclared name (whatever kind of trait the stem is)
+USCORE = [n + "_" for n in NAMES]
 OP = st.one_of(
+    st.tuples(st.just("get"), st.sampled_from(USCORE)), st.tuples(st.just("seti"), st.sampled_from(USCORE)),
+    st.tuples(st.just("sets"), st.sampled_from(USCORE)),
     st.tuples(st.just("get"), st.sampled_from(NAMES)), st.tuples(st.just("get"), st.sampled_from(NAMES)),
     st.tuples(st.just("seti"), st.sampled_from(NAMES)), st.tuples(st.just("sets"), st.sampled_from(NAMES)),
     st.tuples(st.just("del"), st.sampled_from(NAMES)),
